@@ -917,114 +917,167 @@ impl Outcome {
     }
 }
 
-/// Run the scenario once on a real registry with real threads started together.
-fn run_conc(sc: &Scenario) -> Outcome {
-    let mut sys = Sys::new();
-    for op in &sc.setup {
-        let _ = sys.apply(op);
-    }
-    let n = sc.threads.len();
-    let arrived = AtomicUsize::new(0);
-    let reg = Arc::clone(&sys.reg);
-    let log = Arc::clone(&sys.log);
-    let results: Vec<Vec<RRes>> = std::thread::scope(|s| {
-        let hs: Vec<_> = sc
-            .threads
-            .iter()
-            .map(|ops| {
-                let (reg, log, arrived) = (&reg, &log, &arrived);
-                s.spawn(move || {
-                    arrived.fetch_add(1, Ordering::SeqCst);
-                    let mut spins = 0u32;
-                    while arrived.load(Ordering::SeqCst) < n {
-                        spins += 1;
-                        if spins > 2000 {
-                            std::thread::yield_now();
-                        } else {
-                            std::hint::spin_loop();
-                        }
-                    }
-                    ops.iter().map(|op| Sys::apply_shared(reg, log, op)).collect::<Vec<RRes>>()
-                })
-            })
-            .collect();
-        hs.into_iter().map(|h| h.join().expect("worker thread")).collect()
-    });
-    for (ops, rs) in sc.threads.iter().zip(&results) {
-        for (op, r) in ops.iter().zip(rs) {
-            if let (OpR::RegF(p, t, f), Ok(_)) = (op, r) {
-                sys.regfs.push((p.clone(), *t, *f));
-            }
+fn wait_until(f: impl Fn() -> bool) {
+    let mut spins = 0u32;
+    while !f() {
+        spins += 1;
+        if spins > 3000 {
+            std::thread::yield_now();
+        } else {
+            std::hint::spin_loop();
         }
     }
-    Outcome { results: results.iter().map(|rs| rs.iter().map(res_word).collect()).collect(), fin: sys.dump(true) }
+}
+
+/// Run the scenario `iters` times, each time on a fresh real registry, with one long-lived OS thread
+/// per scenario thread; the threads of an iteration are released together by a spin barrier.
+/// Returns the distinct outcomes with their frequencies.
+fn run_conc_many(sc: &Scenario, iters: u64) -> BTreeMap<String, (Outcome, u64)> {
+    let n = sc.threads.len();
+    let slot: Mutex<Option<(Arc<Registry>, Log)>> = Mutex::new(None);
+    let gen = AtomicUsize::new(0); // iteration published by the main thread
+    let arrived = AtomicUsize::new(0);
+    let done = AtomicUsize::new(0);
+    let stop = AtomicUsize::new(0);
+    let results: Vec<Mutex<Vec<RRes>>> = (0..n).map(|_| Mutex::new(Vec::new())).collect();
+    let mut seen: BTreeMap<String, (Outcome, u64)> = BTreeMap::new();
+    std::thread::scope(|s| {
+        for (k, ops) in sc.threads.iter().enumerate() {
+            let (slot, gen, arrived, done, stop, results) = (&slot, &gen, &arrived, &done, &stop, &results);
+            s.spawn(move || {
+                let mut my = 0usize;
+                loop {
+                    wait_until(|| gen.load(Ordering::Acquire) > my || stop.load(Ordering::Acquire) == 1);
+                    if stop.load(Ordering::Acquire) == 1 {
+                        return;
+                    }
+                    my += 1;
+                    let (reg, log) = slot.lock().unwrap().clone().expect("registry published");
+                    arrived.fetch_add(1, Ordering::AcqRel);
+                    wait_until(|| arrived.load(Ordering::Acquire) >= n * my);
+                    let rs: Vec<RRes> = ops.iter().map(|op| Sys::apply_shared(&reg, &log, op)).collect();
+                    *results[k].lock().unwrap() = rs;
+                    done.fetch_add(1, Ordering::AcqRel);
+                }
+            });
+        }
+        for it in 1..=iters as usize {
+            let mut sys = Sys::new();
+            for op in &sc.setup {
+                let _ = sys.apply(op);
+            }
+            *slot.lock().unwrap() = Some((Arc::clone(&sys.reg), Arc::clone(&sys.log)));
+            gen.store(it, Ordering::Release);
+            wait_until(|| done.load(Ordering::Acquire) >= n * it);
+            let rs: Vec<Vec<RRes>> = results.iter().map(|m| std::mem::take(&mut *m.lock().unwrap())).collect();
+            for (ops, rs) in sc.threads.iter().zip(&rs) {
+                for (op, r) in ops.iter().zip(rs) {
+                    if let (OpR::RegF(p, t, f), Ok(_)) = (op, r) {
+                        sys.regfs.push((p.clone(), *t, *f));
+                    }
+                }
+            }
+            let o = Outcome { results: rs.iter().map(|rs| rs.iter().map(res_word).collect()).collect(), fin: sys.dump(true) };
+            seen.entry(o.words()).or_insert_with(|| (o, 0)).1 += 1;
+        }
+        stop.store(1, Ordering::Release);
+    });
+    seen
+}
+
+fn reg_key(path: &str) -> Option<String> {
+    o_reg_parse(path).map(|t| o_canon(&t))
 }
 
 /// Direct oracle: is there a sequential order of the threads' ops (program order kept) that, run on
 /// the real registry one op at a time, gives exactly these results and this final state?
-fn linearizable(sc: &Scenario, o: &Outcome, explored: &mut u64) -> bool {
+///
+/// `two_step = true` relaxes the specification to the lock-region granularity of the current source:
+/// a body-bearing dispatch is a function-map lookup step followed later by a write step that does
+/// not look at the function map again.  Used only to CLASSIFY a non-linearizable outcome (is it the
+/// known lookup-then-write race or something else); the property is the `two_step = false` search.
+fn linearizable(sc: &Scenario, o: &Outcome, two_step: bool, explored: &mut u64) -> bool {
     let mut sys = Sys::new();
     for op in &sc.setup {
         let _ = sys.apply(op);
     }
-    let mut seen: HashSet<(Vec<usize>, String)> = HashSet::new();
-    fn go(sc: &Scenario, o: &Outcome, pos: &mut Vec<usize>, snap: &Snapshot, seen: &mut HashSet<(Vec<usize>, String)>, explored: &mut u64) -> bool {
+    struct S<'a> {
+        sc: &'a Scenario,
+        o: &'a Outcome,
+        two_step: bool,
+        seen: HashSet<(Vec<usize>, Vec<bool>, String)>,
+    }
+    fn go(st: &mut S, pos: &mut Vec<usize>, pend: &mut Vec<bool>, snap: &Snapshot, explored: &mut u64) -> bool {
         *explored += 1;
-        if pos.iter().zip(&sc.threads).all(|(p, t)| *p == t.len()) {
-            return Sys::from_snapshot(snap).dump(true) == o.fin;
+        if pos.iter().zip(&st.sc.threads).all(|(p, t)| *p == t.len()) {
+            return Sys::from_snapshot(snap).dump(true) == st.o.fin;
         }
-        let key = (pos.clone(), format!("{} {:?} {:?}", render(&snap.root), snap.regfs, snap.log));
-        if seen.contains(&key) {
+        let key = (pos.clone(), pend.clone(), format!("{} {:?} {:?}", render(&snap.root), snap.regfs, snap.log));
+        if st.seen.contains(&key) {
             return false;
         }
-        for k in 0..sc.threads.len() {
-            if pos[k] == sc.threads[k].len() {
+        for k in 0..st.sc.threads.len() {
+            if pos[k] == st.sc.threads[k].len() {
                 continue;
             }
+            let op = &st.sc.threads[k][pos[k]];
+            let want = &st.o.results[k][pos[k]];
+            if st.two_step {
+                if let OpR::Disp(p, Some(_)) = op {
+                    if let Some(key) = o_parse(p).map(|t| o_canon(&t)) {
+                        let is_fn = |s: &Snapshot| s.regfs.iter().any(|(rp, _, _)| reg_key(rp).as_deref() == Some(&key));
+                        if !pend[k] && !is_fn(snap) {
+                            // lookup step found nothing: the request is now between its two sections
+                            pend[k] = true;
+                            let ok = go(st, pos, pend, snap, explored);
+                            pend[k] = false;
+                            if ok {
+                                return true;
+                            }
+                            continue;
+                        }
+                        if pend[k] {
+                            // write step: performed without consulting the function map
+                            let mut bare = snap.clone();
+                            bare.regfs.retain(|(rp, _, _)| reg_key(rp).as_deref() != Some(&key));
+                            let mut sys = Sys::from_snapshot(&bare);
+                            let r = sys.apply(op);
+                            if &res_word(&r) != want {
+                                continue;
+                            }
+                            let next = Snapshot { root: sys.root(), regfs: snap.regfs.clone(), log: snap.log.clone() };
+                            pend[k] = false;
+                            pos[k] += 1;
+                            let ok = go(st, pos, pend, &next, explored);
+                            pos[k] -= 1;
+                            pend[k] = true;
+                            if ok {
+                                return true;
+                            }
+                            continue;
+                        }
+                    }
+                }
+            }
             let mut sys = Sys::from_snapshot(snap);
-            let r = sys.apply(&sc.threads[k][pos[k]]);
-            if res_word(&r) != o.results[k][pos[k]] {
+            let r = sys.apply(op);
+            if &res_word(&r) != want {
                 continue;
             }
             pos[k] += 1;
-            let ok = go(sc, o, pos, &sys.snapshot(), seen, explored);
+            let ok = go(st, pos, pend, &sys.snapshot(), explored);
             pos[k] -= 1;
             if ok {
                 return true;
             }
         }
-        seen.insert(key);
+        st.seen.insert(key);
         false
     }
+    let mut st = S { sc, o, two_step, seen: HashSet::new() };
     let mut pos = vec![0; sc.threads.len()];
-    go(sc, o, &mut pos, &sys.snapshot(), &mut seen, explored)
-}
-
-/// Signature of a non-linearizable outcome: the known shape (a body-bearing dispatch wrote although a
-/// callable was registered at the same key by another thread) is told apart from anything else.
-fn conc_sig(sc: &Scenario, o: &Outcome) -> &'static str {
-    for (k, ops) in sc.threads.iter().enumerate() {
-        for (i, op) in ops.iter().enumerate() {
-            let OpR::Disp(p, Some(_)) = op else { continue };
-            if !o.results[k][i].starts_with("ok:{\"path\":") {
-                continue;
-            }
-            let Some(key) = o_parse(p).map(|t| o_canon(&t)) else { continue };
-            for (k2, ops2) in sc.threads.iter().enumerate() {
-                if k2 == k {
-                    continue;
-                }
-                for (j, op2) in ops2.iter().enumerate() {
-                    if let OpR::RegF(p2, _, _) = op2 {
-                        if o.results[k2][j].starts_with("ok:") && o_reg_parse(p2).map(|t| o_canon(&t)) == Some(key.clone()) {
-                            return "registry.conc.write_raced_function_registration";
-                        }
-                    }
-                }
-            }
-        }
-    }
-    "registry.conc.not_linearizable"
+    let mut pend = vec![false; sc.threads.len()];
+    go(&mut st, &mut pos, &mut pend, &sys.snapshot(), explored)
 }
 
 /// Execute a `conc` op line: run the scenario `iters` times, report each distinct outcome once.
@@ -1034,22 +1087,26 @@ fn exec_conc(out: &mut Out, line: &str) {
     let iters: u64 = w[2].parse().unwrap();
     let sc = Scenario::parse(&w[3..]);
     let base = format!("conc {} {} {}", idx, iters, sc.words());
-    let mut seen: BTreeMap<String, (Outcome, u64)> = BTreeMap::new();
-    for _ in 0..iters {
-        let o = run_conc(&sc);
-        seen.entry(o.words()).or_insert_with(|| (o, 0)).1 += 1;
-    }
+    let seen = run_conc_many(&sc, iters);
     out.add("conc.runs", iters);
+    out.count(&format!("conc.threads.{}", sc.threads.len()));
     out.count(&format!("conc.distinct_outcomes.{}", seen.len().min(9)));
     for (ow, (o, n)) in &seen {
         let mut explored = 0;
-        let ok = linearizable(&sc, o, &mut explored);
+        let ok = linearizable(&sc, o, false, &mut explored);
         out.add("conc.orders_explored", explored);
         let full = format!("{} => {}", base, ow);
         if !ok {
-            let sig = conc_sig(&sc, o);
+            // classify: explained by the two lock regions of the body-bearing dispatch, or not at all?
+            let sig = if linearizable(&sc, o, true, &mut explored) {
+                "registry.conc.write_raced_function_registration"
+            } else {
+                "registry.conc.not_linearizable"
+            };
             out.count(&format!("conc.{}", sig));
             out.oracle_fail(sig, &format!("no sequential order of the threads' operations gives this outcome (seen in {} of {} runs): {}", n, iters, ow), &[base.clone()]);
+        } else {
+            out.count("conc.linearizable_outcomes");
         }
         out.case(&full, &format!("{} member", idx), seen.len() > 1);
     }
